@@ -1,10 +1,12 @@
 (* C01 — model of aperture masks: BoundingBox (from_float, get_overlap_slices, union,
    intersection), PixelAperture._centered_edges / _translate_mask_mode, the
-   'center'/'subpixel' kernels (the _overlap_single_subpixel functions) of the three shape families and
-   the annulus subtraction of the MaskMixin.to_mask methods.
+   'center'/'subpixel' kernels (the _overlap_single_subpixel loops and the _overlap_grid drivers
+   with their bounding-box / "well within" / "fully outside" fast paths) of the three shape
+   families and the annulus subtraction of the MaskMixin.to_mask methods.
    Real scalars are exact rationals (Q): every finite double is a dyadic rational, so the
-   harness passes the exact value of each float argument. *)
-From Coq Require Import ZArith QArith Qround Qabs Qminmax List Bool Lia.
+   harness passes the exact value of each float argument.  The 'exact' area kernels (sqrt,
+   asin) are not modelled here. *)
+From Coq Require Import ZArith QArith Qround Qabs Qminmax Qreduction List Bool Lia.
 From PV Require Import lib.Cases.
 Import ListNotations.
 Open Scope Q_scope.
@@ -25,7 +27,8 @@ Definition box_shape (b : box) : Z * Z := ((iymax b - iymin b)%Z, (ixmax b - ixm
 Definition zslc := (Z * Z)%type.
 Definition overlap_slices (b : box) (ny nx : Z) : option ((zslc * zslc) * (zslc * zslc)) :=
   let xmin := ixmin b in let xmax := ixmax b in let ymin := iymin b in let ymax := iymax b in
-  if ((nx <=? xmin) || (ny <=? ymin) || (xmax <=? 0) || (ymax <=? 0))%Z then None
+  if ((nx <=? xmin) || (ny <=? ymin) || (xmax <=? 0) || (ymax <=? 0)
+      || (ny <=? 0) || (nx <=? 0))%Z then None     (* last two: fixes/C01-1 (zero-size image) *)
   else Some (((Z.max ymin 0, Z.min ymax ny), (Z.max xmin 0, Z.min xmax nx)),
              ((Z.max (- ymin) 0, Z.min (ymax - ymin) (ny - ymin)),
               (Z.max (- xmin) 0, Z.min (xmax - xmin) (nx - xmin))))%Z.
@@ -62,7 +65,7 @@ Inductive shape :=
 
 Definition Qltb (a b : Q) : bool := negb (Qle_bool b a).
 
-(* lhs < rhs is the kernel's test; [margins] returns the quantities whose sign decides it *)
+(* the test of the innermost loop body of the three _single_subpixel kernels *)
 Definition inside (sh : shape) (x y : Q) : bool :=
   match sh with
   | Circle r => Qltb (x * x + y * y) (r * r)
@@ -74,6 +77,7 @@ Definition inside (sh : shape) (x y : Q) : bool :=
       Qltb (Qabs xt) (w / 2) && Qltb (Qabs yt) (h / 2)
   end.
 
+(* the quantities whose sign decides [inside] (used to skip float-undecidable ties) *)
 Definition margins (sh : shape) (x y : Q) : list Q :=
   match sh with
   | Circle r => [x * x + y * y - r * r]
@@ -85,30 +89,91 @@ Definition margins (sh : shape) (x y : Q) : list Q :=
       [Qabs xt - w / 2; Qabs yt - h / 2]
   end.
 
-(* sub-pixel centres of the pixel with lower-left corner (x0, y0) and unit size *)
-Definition sub_coord (x0 : Q) (s : Z) (i : nat) : Q :=
-  x0 + (2 * inject_Z (Z.of_nat i) + 1) / (2 * inject_Z s).
-Definition sub_centres (x0 y0 : Q) (s : Z) : list (Q * Q) :=
-  flat_map (fun i => map (fun j => (sub_coord x0 s i, sub_coord y0 s j)) (seq 0 (Z.to_nat s)))
+(* --- the _overlap_single_subpixel loops, as written:
+         x = x0 - 0.5*dx
+         for i in range(subpixels):
+             x += dx; y = y0 - 0.5*dy
+             for j in range(subpixels):
+                 y += dy
+                 if <inside>: frac += 1
+     [Qred] only normalises the fraction (Qred q == q); the result is frac (the weight is
+     frac / (subpixels*subpixels)) *)
+Fixpoint loop_y (sh : shape) (n : nat) (x y dy : Q) (frac : Z) : Z :=
+  match n with
+  | O => frac
+  | S n' => let y' := Qred (y + dy) in
+            loop_y sh n' x y' dy (if inside sh x y' then (frac + 1)%Z else frac)
+  end.
+Fixpoint loop_x (sh : shape) (n ny : nat) (x dx y0 dy : Q) (frac : Z) : Z :=
+  match n with
+  | O => frac
+  | S n' => let x' := Qred (x + dx) in
+            loop_x sh n' ny x' dx y0 dy (loop_y sh ny x' (y0 - half * dy) dy frac)
+  end.
+Definition single_subpixel (sh : shape) (x0 y0 x1 y1 : Q) (s : Z) : Z :=
+  let dx := (x1 - x0) / inject_Z s in
+  let dy := (y1 - y0) / inject_Z s in
+  loop_x sh (Z.to_nat s) (Z.to_nat s) (x0 - half * dx) dx y0 dy 0%Z.
+
+(* --- specification side: the explicit set of sub-pixel centres of the pixel
+       [x0,x1] x [y0,y1] and the number of them inside the shape *)
+Definition sub_coord (x0 x1 : Q) (s : Z) (i : nat) : Q :=
+  x0 + (inject_Z (Z.of_nat i) + half) * ((x1 - x0) / inject_Z s).
+Definition sub_centres (x0 y0 x1 y1 : Q) (s : Z) : list (Q * Q) :=
+  flat_map (fun i => map (fun j => (sub_coord x0 x1 s i, sub_coord y0 y1 s j)) (seq 0 (Z.to_nat s)))
            (seq 0 (Z.to_nat s)).
-(* number of sub-pixel centres inside the shape: the _overlap_single_subpixel result times s^2 *)
-Definition subpix_count (sh : shape) (x0 y0 : Q) (s : Z) : Z :=
-  Z.of_nat (length (filter (fun p => inside sh (fst p) (snd p)) (sub_centres x0 y0 s))).
+Definition subpix_count (sh : shape) (x0 y0 x1 y1 : Q) (s : Z) : Z :=
+  Z.of_nat (length (filter (fun p => inside sh (fst p) (snd p)) (sub_centres x0 y0 x1 y1 s))).
 (* is every deciding quantity of the pixel further than tol from 0 ? *)
 Definition decided (tol : Q) (sh : shape) (x0 y0 : Q) (s : Z) : bool :=
   forallb (fun p => forallb (fun m => Qltb tol (Qabs m)) (margins sh (fst p) (snd p)))
-          (sub_centres x0 y0 s).
+          (sub_centres x0 y0 (x0 + 1) (y0 + 1) s).
 
-(* the _overlap_grid functions with use_exact = 0 on the grid handed over by to_mask: cell [j][i] has
-   lower-left corner (xmin + i, ymin + j) (dx = dy = 1, see centered_edges) *)
+(* --- the _overlap_grid drivers (use_exact = 0).  [pr] is pixel_radius = 0.5*sqrt(dx*dx+dy*dy);
+       tests on d = sqrt(pxcen^2 + pycen^2) are written on squares *)
+Definition in_skip_box (r dx dy pxmin pymin : Q) : bool :=
+  Qltb (- r - half * dx) (pxmin + dx) && Qltb pxmin (r + half * dx) &&
+  Qltb (- r - half * dy) (pymin + dy) && Qltb pymin (r + half * dy).
+
+Definition cell (sh : shape) (pr dx dy pxmin pymin : Q) (s : Z) : Z :=
+  let pxmax := pxmin + dx in let pymax := pymin + dy in
+  match sh with
+  | Circle r =>
+      if in_skip_box r dx dy pxmin pymin then
+        let pxcen := pxmin + dx * half in let pycen := pymin + dy * half in
+        let d2 := pxcen * pxcen + pycen * pycen in
+        if Qltb 0 (r - pr) && Qltb d2 ((r - pr) * (r - pr)) then (s * s)%Z     (* d < r - pixel_radius: 1.0 *)
+        else if Qltb 0 (r + pr) && Qltb d2 ((r + pr) * (r + pr))               (* d < r + pixel_radius *)
+             then single_subpixel sh pxmin pymin pxmax pymax s
+             else 0%Z
+      else 0%Z
+  | Ellipse a b _ _ =>
+      if in_skip_box (Qmax a b) dx dy pxmin pymin then single_subpixel sh pxmin pymin pxmax pymax s
+      else 0%Z
+  | Rect _ _ _ _ => single_subpixel sh pxmin pymin pxmax pymax s
+  end.
+
+Definition overlap_grid (sh : shape) (pr xmin xmax ymin ymax : Q) (nx ny s : Z) : list (list Z) :=
+  let dx := (xmax - xmin) / inject_Z nx in
+  let dy := (ymax - ymin) / inject_Z ny in
+  map (fun j => map (fun i => cell sh pr dx dy (xmin + inject_Z (Z.of_nat i) * dx)
+                                               (ymin + inject_Z (Z.of_nat j) * dy) s)
+                    (seq 0 (Z.to_nat nx)))
+      (seq 0 (Z.to_nat ny)).
+
+(* the double 0.5*sqrt(1.0*1.0 + 1.0*1.0) *)
+Definition pixel_radius : Q := 6369051672525773 # 9007199254740992.
+
+(* MaskMixin.to_mask for one shape: grid over the bbox with the centred edges *)
+Definition mask_counts (sh : shape) (b : box) (px py : Q) (s : Z) : list (list Z) :=
+  let '(xmin, xmax, ymin, ymax) := centered_edges b px py in
+  overlap_grid sh pixel_radius xmin xmax ymin ymax (ixmax b - ixmin b) (iymax b - iymin b) s.
+
 Definition grid {A} (f : Q -> Q -> A) (b : box) (px py : Q) : list (list A) :=
   let '(xmin, _, ymin, _) := centered_edges b px py in
   map (fun j => map (fun i => f (xmin + inject_Z (Z.of_nat i)) (ymin + inject_Z (Z.of_nat j)))
                     (seq 0 (Z.to_nat (ixmax b - ixmin b))))
       (seq 0 (Z.to_nat (iymax b - iymin b))).
-
-Definition mask_counts (sh : shape) (b : box) (px py : Q) (s : Z) : list (list Z) :=
-  grid (fun x0 y0 => subpix_count sh x0 y0 s) b px py.
 Definition mask_decided (tol : Q) (sh : shape) (b : box) (px py : Q) (s : Z) : list (list bool) :=
   grid (fun x0 y0 => decided tol sh x0 y0 s) b px py.
 
@@ -133,6 +198,17 @@ Definition extents_sq (sh : shape) : Q * Q :=
   end.
 Definition close_sq (e e2 rel : Q) : bool := Qle_bool (Qabs (e * e - e2)) (rel * e2) && Qle_bool 0 e.
 
+(* the float (cos, sin) pair is a unit vector up to rounding; this is the hypothesis under
+   which the ellipse driver's bounding-circle skip is sound (see C01_Proofs.ell_cell_sound) *)
+Definition rot_ok (sh : shape) : bool :=
+  match sh with
+  | Circle r => Qle_bool 0 r
+  | Ellipse a b c s =>
+      let r := Qmax a b in
+      Qltb 0 a && Qltb 0 b && Qle_bool (r * r) ((c * c + s * s) * ((r + half) * (r + half)))
+  | Rect w h c s => Qle_bool (Qabs (c * c + s * s - 1)) (1 # 1000000000000)
+  end.
+
 (* ---------- correspondence ---------- *)
 Inductive case :=
 | CMask (outer : shape) (inner : option shape) (px py ex ey : Q) (mode subpixels : Z)
@@ -142,7 +218,8 @@ Inductive case :=
 | CSlices (b : Z * Z * Z * Z) (ny nx : Z)
           (exp : option ((zslc * zslc) * (zslc * zslc)))
 | CUnion (a b r : Z * Z * Z * Z)
-| CInter (a b : Z * Z * Z * Z) (r : option (Z * Z * Z * Z)).
+| CInter (a b : Z * Z * Z * Z) (r : option (Z * Z * Z * Z))
+| CFromFloat (xmin xmax ymin ymax : Q) (r : Z * Z * Z * Z).
 
 Definition tobox (t : Z * Z * Z * Z) : box := let '(a, b, c, d) := t in mkbox a b c d.
 Definition ofbox (b : box) : Z * Z * Z * Z := (ixmin b, ixmax b, iymin b, iymax b).
@@ -173,6 +250,7 @@ Definition check_case (c : case) : bool :=
       let b := from_float (px - ex) (px + ex) (py - ey) (py + ey) in
       let '(x2, y2) := extents_sq outer in
       close_sq ex x2 (1 # 1000000000000) && close_sq ey y2 (1 # 1000000000000) &&
+      rot_ok outer && match inner with None => true | Some sh => rot_ok sh end &&
       z4_eqb (ofbox b) bbox &&
       match translate_mode mode subpixels rect, counts with
       | Some (false, s), Some e =>
@@ -200,6 +278,7 @@ Definition check_case (c : case) : bool :=
       | Some x, Some y => z4_eqb (ofbox x) y
       | _, _ => false
       end
+  | CFromFloat xmin xmax ymin ymax r => z4_eqb (ofbox (from_float xmin xmax ymin ymax)) r
   end.
 
 Definition model_out (c : case) :=
